@@ -1,34 +1,13 @@
 import DM.Lemmas.RSEncode
 import DM.Lemmas.GFSpec
 import DM.Model.RSEnc
+import DM.Lemmas.Bytes
 /-
 Bridge between the byte-level model (`Nat` lists, `gadd`/`gmul`), the field-level
 algebra (`GF`) and the table-free specification (`Spec.evalS` with `smul`).
 -/
 namespace DM.Lemmas
 open DM.Model DM.Spec
-
-def Bytes (l : List Nat) : Prop := ∀ x ∈ l, x < 256
-
-theorem Bytes.nil : Bytes [] := by intro x hx; simp at hx
-theorem Bytes.cons {a : Nat} {l : List Nat} (ha : a < 256) (hl : Bytes l) : Bytes (a :: l) := by
-  intro x hx
-  rcases List.mem_cons.mp hx with rfl | hx
-  · exact ha
-  · exact hl x hx
-theorem Bytes.tail {a : Nat} {l : List Nat} (h : Bytes (a :: l)) : Bytes l :=
-  fun x hx => h x (List.mem_cons_of_mem _ hx)
-theorem Bytes.head {a : Nat} {l : List Nat} (h : Bytes (a :: l)) : a < 256 :=
-  h a (List.mem_cons_self ..)
-theorem Bytes.append {l₁ l₂ : List Nat} (h1 : Bytes l₁) (h2 : Bytes l₂) : Bytes (l₁ ++ l₂) := by
-  intro x hx
-  rcases List.mem_append.mp hx with h | h
-  · exact h1 x h
-  · exact h2 x h
-theorem Bytes.replicate_zero (n : Nat) : Bytes (List.replicate n 0) := by
-  intro x hx
-  have := (List.mem_replicate.mp hx).2
-  omega
 
 def toG (l : List Nat) : List GF := l.map GF.ofNat
 
